@@ -327,16 +327,16 @@ def main():
             # function's properties at every iteration
             sem = (set(f['tags']) - {'C10'}) or set(f['tags'])
             struct = {'C10'} - sem
-        elif f['kind'] == 'clause' and f['fn'] not in edited:
-            # scaffolding (arithmetic invariant / proof step) of a function whose body is byte-for-byte the one the
-            # contract was written for: the proof text fits, so the failure comes from a changed callee contract,
-            # table or constant - an obligation that held on the unchanged tree and fails now
+        elif f['kind'] == 'clause' and not (f['fn'] in restructured or (f['fn'] in edited and calls_new_helper(f['fn']))):
+            # scaffolding (arithmetic invariant / proof step) of a function whose body is the one the contract was
+            # written for, or differs from it by a small edit only (a constant, a table entry, an operator): the proof
+            # text fits, so this is an obligation that held on the unchanged tree and fails now
             sem = (set(f['tags']) - {'C10'}) or set(f['tags'])
             struct = {'C10'} - sem
         elif f['kind'] == 'clause':
             # purely arithmetic invariants (counter ranges, lengths) and contract-authored proof steps without tags
-            # of their own, in an EDITED function, are scaffolding shared by all properties of the function: their
-            # failure leaves those properties UNDECIDED by proof (the bounded stand-in then decides)
+            # of their own, in a RESTRUCTURED function, are scaffolding shared by all properties of the function:
+            # their failure leaves those properties UNDECIDED by proof (the bounded stand-in then decides)
             struct = set(f['tags'])
         elif f['kind'] == 'safety':
             if f['fn'] in edited and f.get('pragma') is None and (f['fn'] in restructured or calls_new_helper(f['fn'])):
